@@ -18,7 +18,7 @@ EXHAUSTIVE = {'quick': True, 'thorough': True}
 ARG_ALPHA = "%_\\'\"aB"
 STORE_ALPHA = ARG_ALPHA + 'Ab'
 RULE = ('exhaustive: every argument over the alphabet % _ \\ \' " a B up to length 2 (quick) / 3 (thorough) x the three helpers, '
-        'each run on the real sqlite against a table holding EVERY string over that alphabet plus A and b (ASCII case folding of sqlite LIKE) '
+        'each run on the real sqlite against a table holding one NULL and EVERY string over that alphabet plus A and b (ASCII case folding of sqlite LIKE) '
         'up to the same length (91 / 820 stored texts), and rendered for all seven dialects; plus seeded random arguments up to length 10 over a '
         'wider pool (those, NUL, LF, CR, TAB, backspace, [, ], ^, -, non-ASCII) against 14 stored texts derived from the argument '
         '(itself, extended on either side, one character changed, case swapped, wildcards instantiated, escapes dropped). '
@@ -104,6 +104,8 @@ def corpus():
         # seeded scenario B (LIKE text memoised without the dialect): rendered for mysql/postgres first, then run on sqlite
         dict(mk('contains', 'a\\b'), store=[R.cps(t) for t in ['a\\b', 'a\\\\b', 'ab', 'xa\\by']], order=['mysql', 'postgres']),
         dict(mk('endswith', '%\\'), store=[R.cps(t) for t in ['50%\\', '50%\\\\', '50%']], order=['postgres', 'mysql']),
+        # seeded scenario: the empty needle must still not select the row whose column is NULL
+        mk('startswith', ''), mk('endswith', ''), mk('contains', ''),
         mk('contains', '50%_\\\''),
         mk('startswith', '%'),
         mk('endswith', '_'),
@@ -147,15 +149,15 @@ def _env():
 
     class VerifC17All2(SQLObject):
         _connection = conn
-        t = StringCol()
+        t = StringCol(default=None)
 
     class VerifC17All3(SQLObject):
         _connection = conn
-        t = StringCol()
+        t = StringCol(default=None)
 
     class VerifC17Scratch(SQLObject):
         _connection = conn
-        t = StringCol()
+        t = StringCol(default=None)
     raw = conn.getConnection()
     for cls in (VerifC17All2, VerifC17All3, VerifC17Scratch):
         cls.createTable()
@@ -167,6 +169,8 @@ def _fill(env, cls, texts):
     cur = env['raw'].cursor()
     cur.execute('DELETE FROM %s' % cls.sqlmeta.table)
     cur.executemany('INSERT INTO %s (id, t) VALUES (?, ?)' % cls.sqlmeta.table, [(i + 1, t) for i, t in enumerate(texts)])
+    # one more row whose searched column is NULL (index len(texts)): a NULL never starts with / ends with / contains anything
+    cur.execute('INSERT INTO %s (id, t) VALUES (?, NULL)' % cls.sqlmeta.table, (len(texts) + 1,))
 
 
 PRED = {'startswith': lambda s, t: t.startswith(s), 'endswith': lambda s, t: t.endswith(s), 'contains': lambda s, t: s in t}
@@ -211,6 +215,18 @@ def run_impl(cases):
                 _fill(env, cls, texts)
             o = {'col': '%s.t' % cls.sqlmeta.table}
             mk = lambda: getattr(cls.q.t, k)(s)
+            if not hasattr(mk(), 'string'):
+                # not a LIKE expression: nothing to decode; still run it, the rows decide
+                o = {'not_like': type(mk()).__name__ if not isinstance(mk(), type) else mk().__name__,
+                     'text': R.cps(_render(mk(), 'sqlite'))}
+                try:
+                    sel = cls.select(mk())
+                    o['count'] = sel.count()
+                    o['rows'] = sorted(r.id - 1 for r in sel)
+                except Exception as e:
+                    o['rows'] = ['exc', type(e).__name__]
+                out.append(o)
+                continue
             # the text matrix: a FRESH expression object per dialect (first rendering of each)
             o['patterns'] = [R.cps(_render(mk().string, d)) for d in R.DIALECTS]
             o['exprs'] = [R.cps(_render(mk(), d)) for d in R.DIALECTS]
@@ -270,7 +286,7 @@ def run_impl(cases):
 # ---------------------------------------------------------------- Coq side
 def coq_case(c, o):
     s = R.from_cps(c['arg'])
-    if 'oversize' in o:
+    if 'oversize' in o or 'not_like' in o:
         return ('{| c_kind := %s; c_arg := %s; c_col := []; c_patterns := []; c_exprs := []; c_decoded := []; '
                 'c_store := SList []; c_rows := None; c_probe := [] |}' % (COQ_KIND[c['kind']], R.coq_str(s)))
     if c['store'] and c['store'][0] == 'all':
@@ -302,6 +318,15 @@ def failures(c, o):
     texts = _texts(c)
     pred = PRED[k]
     out = []
+    if 'not_like' in o:
+        fs = R.fold_ascii(s)
+        expect = [i for i, t in enumerate(texts) if pred(fs, R.fold_ascii(t))]
+        if o['rows'] != expect or o.get('count') != len(expect):
+            null_row = len(texts) in o['rows'] if o['rows'] and o['rows'][0] != 'exc' else False
+            return [{'dialect': 'sqlite', 'what': '%s(%r) is rendered as %s, not as a LIKE, and selects other rows than the literal %s%s'
+                     % (k, s, R.from_cps(o['text']), k, ' (the row whose column is NULL is selected)' if null_row else ''),
+                     'rows': o['rows'][:8] if o['rows'] else o['rows'], 'count': o.get('count'), 'expected_count': len(expect)}]
+        return []
     # one expression object rendered repeatedly / for several dialects: every rendering must be the first rendering
     for item in o.get('rerender', []):
         if item[0] == 'oversize':
@@ -315,8 +340,8 @@ def failures(c, o):
     if o['rows'] and o['rows'][0] != 'exc':
         if o.get('count') != len(o['rows']) or o.get('rows_again') != o['rows']:
             out.append({'dialect': 'sqlite', 'what': 'count(), iteration and a second iteration of ONE select with %s(%r) disagree' % (k, s),
-                        'count': o.get('count'), 'rows': [texts[i] for i in o['rows']][:6],
-                        'rows_again': [texts[i] for i in o.get('rows_again', [])][:6]})
+                        'count': o.get('count'), 'rows': [(texts[i] if i < len(texts) else None) for i in o['rows']][:6],
+                        'rows_again': [(texts[i] if i < len(texts) else None) for i in o.get('rows_again', [])][:6]})
     unrepresentable = any(ch == '\x00' or 0xD800 <= ord(ch) <= 0xDFFF for ch in s)
     if o['rows'] and o['rows'][0] == 'exc':
         if not unrepresentable:
@@ -325,7 +350,7 @@ def failures(c, o):
         fs = R.fold_ascii(s)
         expect = [i for i, t in enumerate(texts) if pred(fs, R.fold_ascii(t))]
         if o['rows'] != expect:
-            extra = [texts[i] for i in o['rows'] if i not in expect][:3]
+            extra = [(texts[i] if i < len(texts) else None) for i in o['rows'] if i not in expect][:3]   # None = the NULL row
             missing = [texts[i] for i in expect if i not in o['rows']][:3]
             out.append({'dialect': 'sqlite', 'what': '%s(%r) selects other rows than the literal %s' % (k, s, k),
                         'selected_but_should_not': extra, 'not_selected_but_should': missing,
